@@ -970,6 +970,68 @@ func c14E2E(name string, before, after []world.NodeSpec, key string, wantAddr st
 	return sc
 }
 
+// c14E2ELoad: the same under load: whenever the 1 s ticker fires, every node connection has a client request in flight
+// (a second client sends one GET per master before each clock tick; the nodes answer them right after the tick). The
+// topology probe must still go out and the change be adopted within the same number of rounds.
+func c14E2ELoad(name string, before, after []world.NodeSpec, key string, wantAddr string, bound int) *world.Scenario {
+	sc := c14E2E(name, before, after, key, wantAddr, true, bound)
+	sc.Family = "end-to-end-under-load"
+	sc.Name = fmt.Sprintf("C14/e2e-under-load/%s/d%d", name, bound)
+	slot := world.SpecSlot([]byte(key))
+	// loader keys: one per master and round, owned by the same master before and after the change
+	pick := func(lo, hi, n int) []string {
+		var ks []string
+		for i := 0; len(ks) < n; i++ {
+			k := fmt.Sprintf("ld%d", i)
+			if s := world.SpecSlot([]byte(k)); s >= lo && s <= hi && s != slot {
+				ks = append(ks, k)
+			}
+		}
+		return ks
+	}
+	const rounds = 4
+	la, lb, lc := pick(0, slot-1, rounds), pick(5461, 10922, rounds), pick(10923, 16383, rounds)
+	holdOf := map[string]int{}
+	loader := world.ClientSpec{}
+	for k := 0; k < rounds; k++ {
+		var data []byte
+		for _, key := range []string{la[k], lb[k], lc[k]} {
+			r := GetReq(key)
+			data = append(data, r.Bytes...)
+			loader.Reqs = append(loader.Reqs, r.Bytes)
+			loader.Expect = append(loader.Expect, r.Expect)
+			holdOf[key] = k + 1
+		}
+		kk := k
+		loader.Chunks = append(loader.Chunks, world.Chunk{Data: data, WaitReplies: 3 * k, Gate: func(w *world.World) bool { return w.FaultsDone() && w.Ticks >= kk }})
+	}
+	sc.Clients = append(sc.Clients, loader)
+	sc.Reply = func(w *world.World, bc *world.BConn, args [][]byte) ([]byte, int) {
+		if len(args) == 2 {
+			if h, ok := holdOf[string(args[1])]; ok {
+				return world.ValueOf(args[1]), h
+			}
+		}
+		return nil, 0
+	}
+	inner := sc.TickGate
+	sc.TickGate = func(w *world.World) bool {
+		if !inner(w) {
+			return false
+		}
+		n := 0
+		for _, rec := range w.DataCmds("") {
+			if len(rec.Args) == 2 {
+				if _, ok := holdOf[string(rec.Args[1])]; ok {
+					n++
+				}
+			}
+		}
+		return n >= 3*(w.Ticks+1) || w.Ticks >= rounds
+	}
+	return sc
+}
+
 func c14E2EScenarios(tier string) []*world.Scenario {
 	b := 1
 	if tier == "thorough" {
@@ -1001,6 +1063,12 @@ func c14E2EScenarios(tier string) []*world.Scenario {
 		out = append(out, c14E2E("failover", base, fail, key, AddrA1, true, b))
 		out = append(out, c14E2E("node-added", base, added, key, AddrD, write, b))
 	}
+	out = append(out, c14E2ELoad("range-moved", T3m(), func() []world.NodeSpec {
+		m := T3m()
+		m[0].Slots = [][2]int{{0, slot - 1}}
+		m[1].Slots = [][2]int{{slot, 10922}}
+		return m
+	}(), key, AddrB, b))
 	// reads after the move may go to B or its replica b1: judge writes only for the exact node, reads for the set
 	out = append(out, c14DeadNode(tier))
 	return out
